@@ -435,7 +435,146 @@ def replay_transcript(path, v, cfg, spec):
     return 0
 
 
-ENGINES = {"apimon": engine_apimon, "transcript": engine_transcript}
+def parse_race_logs(pattern):
+    """Returns (number of DATA RACE blocks, {dedup key: first block text})."""
+    total, uniq = 0, {}
+    for f in glob.glob(pattern):
+        txt = open(f, errors="replace").read()
+        for blk in txt.split("==================")[0:]:
+            if "WARNING: DATA RACE" not in blk:
+                continue
+            total += 1
+            frames = re.findall(r"^\s+([\w./*()\-]+)\(\)\n\s+(\S+?):\d+", blk, re.M)
+            lib = [fn for fn, fl in frames if "oasisprotocol/ed25519" in fn and "/verifh/" not in fn]
+            key = "|".join(sorted(set(lib[:2]))) or "|".join(fn for fn, _ in frames[:2])
+            uniq.setdefault(key, blk.strip()[:1500])
+    return total, uniq
+
+
+def engine_conc(prop, tier, seed, spec):
+    """C15: race detector + history monitor (solitary result per distinct call from a fresh process)
+    + package-level state monitor."""
+    agg = Agg(prop, tier, seed)
+    cfgs = spec["configs"][tier]
+    wdir = os.path.join(WORK, prop, "shards")
+    shutil.rmtree(wdir, ignore_errors=True)
+    os.makedirs(wdir, exist_ok=True)
+    thorough = tier == "thorough"
+    built = {}
+    for cfg in cfgs:
+        try:
+            b = {"tr": build(cfg, "transcript"), "plain": build(cfg, "conc")}
+            if CONFIGS[cfg]["env"].get("GOARCH") != "386":
+                b["race"] = build(cfg, "conc", race=True)
+            built[cfg] = b
+        except BuildError as e:
+            log(str(e))
+            agg.inconclusive.append("%s: build failed" % cfg)
+    if not built:
+        return finish(agg, spec)
+    first = next(iter(built))
+    pool = os.path.join(wdir, "pool.jsonl")
+    groups = 8 if not thorough else 24
+    p = subprocess.run([built[first]["plain"], "-genpool", "-groups", str(groups), "-seed", str(seed), "-out", pool], stdout=subprocess.PIPE, stderr=subprocess.STDOUT, text=True)
+    if p.returncode != 0:
+        agg.inconclusive.append("pool generation failed: " + p.stdout[-300:])
+        return finish(agg, spec)
+    npool = len(open(pool).read().splitlines())
+    # solitary results: every call alone in its own fresh process, per configuration
+    jobs = []
+    for cfg, b in built.items():
+        for i in range(npool):
+            out = os.path.join(wdir, "solo-%s-%d.txt" % (cfg, i))
+            jobs.append({"cfg": cfg, "i": i, "out": out, "log": out + ".log", "args": [b["tr"], "-exec", pool, "-only", str(i), "-out", out]})
+    for j, st, rc in run_shards(jobs, 300):
+        if st != "ok":
+            agg.inconclusive.append("%s: solitary execution of call %d: %s rc=%s" % (j["cfg"], j["i"], st, rc))
+    solo = {}
+    for cfg in built:
+        path = os.path.join(wdir, "solo-%s.txt" % cfg)
+        with open(path, "w") as f:
+            for i in range(npool):
+                pth = os.path.join(wdir, "solo-%s-%d.txt" % (cfg, i))
+                if os.path.exists(pth):
+                    f.write(open(pth).read())
+                    os.remove(pth)
+                if os.path.exists(pth + ".log"):
+                    os.remove(pth + ".log")
+        solo[cfg] = path
+    agg.classes["solitary-fresh-process-executions"] = npool * len(built)
+    # workload shards
+    jobs = []
+    reps = 3 if thorough else 1
+    for cfg, b in built.items():
+        for k in range(2 if not thorough else 6):
+            out = os.path.join(wdir, "seq-%s-%d.json" % (cfg, k))
+            jobs.append({"cfg": cfg, "out": out, "log": out + ".log", "kind": "seq",
+                         "args": [b["plain"], "-pool", pool, "-solo", solo[cfg], "-mode", "seq", "-ops", str(npool * (2 if not thorough else 10)), "-seed", str(seed), "-shard", str(k), "-config", cfg, "-out", out]})
+        binp = b.get("race", b["plain"])
+        shapes = [(4, 2), (16, 4), (64, 16), (16, 16)] if not thorough else [(g, pr) for g in (4, 16, 64) for pr in (2, 4, 16)]
+        for rep in range(reps):
+            for si, (G, procs) in enumerate(shapes):
+                k = rep * 100 + si
+                out = os.path.join(wdir, "conc-%s-%d.json" % (cfg, k))
+                env = dict(os.environ)
+                env["GORACE"] = "halt_on_error=0 log_path=%s" % os.path.join(wdir, "race-%s-%d" % (cfg, k))
+                ops = 2500 if not thorough else 12000
+                jobs.append({"cfg": cfg, "out": out, "log": out + ".log", "kind": "conc", "env": env,
+                             "args": [binp, "-pool", pool, "-solo", solo[cfg], "-mode", "conc", "-G", str(G), "-procs", str(procs), "-ops", str(ops),
+                                      "-seed", str(seed), "-shard", str(k), "-config", cfg, "-out", out]})
+    for j, st, rc in run_shards(jobs, spec.get("timeout", {}).get(tier, 1800)):
+        if st == "timeout":
+            agg.inconclusive.append("%s %s shard watchdog" % (j["cfg"], j["kind"]))
+            continue
+        if os.path.exists(j["out"]):
+            agg.add_record(j["out"], j["cfg"])
+        if st == "crash":
+            tail = open(j["log"], errors="replace").read()[-2000:]
+            if rc == 3:
+                agg.inconclusive.append("%s: %s" % (j["cfg"], tail[-300:]))
+            elif rc == 66 and "DATA RACE" in tail:
+                pass  # exit code of the race runtime; the blocks are counted from the logs below
+            else:
+                agg.violations.append({"property": prop, "sub": "process", "config": j["cfg"], "sig": "crash/" + j["kind"],
+                                       "what": "%s workload process died rc=%s: %s" % (j["kind"], rc, tail.replace("\n", " | ")[-700:]),
+                                       "case": {"op": "conc-shard", "args": j["args"][1:]}})
+    total_races = 0
+    for cfg in built:
+        n, uniq = parse_race_logs(os.path.join(wdir, "race-%s-*" % cfg))
+        total_races += n
+        for key, blk in uniq.items():
+            agg.violations.append({"property": prop, "sub": "race-detector", "config": cfg, "sig": "race/" + key,
+                                   "what": "DATA RACE reported by the Go race detector (%d blocks in this configuration), outermost library frames: %s" % (n, key),
+                                   "case": {"op": "race", "report": blk}})
+    agg.classes["race-detector/DATA-RACE-blocks"] = total_races
+    agg.classes["race-detector/instrumented-configs"] = len([c for c in built if "race" in built[c]])
+    extra = {"pool_calls": npool, "goroutine_shapes(G,GOMAXPROCS)": "see shards", "race_blocks": total_races}
+    pairs = agg.classes.get("distinct-overlapping-kind-pairs", 0)
+    if agg.classes.get("max/concurrency", 0) < 2 or pairs < 10:
+        agg.inconclusive.append("too little overlap observed (max concurrency %s, overlapping kind pairs %s)" % (agg.classes.get("max/concurrency", 0), pairs))
+        spec = dict(spec)
+        spec["floor"] = 10 ** 12
+    return finish(agg, spec, extra)
+
+
+def replay_conc(path, v, cfg, spec):
+    case = v.get("case", {})
+    if case.get("op") == "history":
+        call = case["call"]
+        wdir = os.path.join(WORK, "replay")
+        os.makedirs(wdir, exist_ok=True)
+        cf = os.path.join(wdir, "call.jsonl")
+        open(cf, "w").write(json.dumps(call) + "\n")
+        b = build(cfg if cfg in CONFIGS else "K0", "transcript")
+        o = os.path.join(wdir, "solo.txt")
+        subprocess.run([b, "-exec", cf, "-out", o], check=False)
+        got = open(o).read().split(" ", 2)[-1].strip()
+        log("solitary result now: %.100s ; recorded solitary: %.100s ; recorded observed (%s): %.100s" % (got, case.get("solitary"), case.get("mode"), case.get("observed")))
+    log("re-running the C15 quick workload")
+    return main(["C15", "quick"])
+
+
+ENGINES = {"apimon": engine_apimon, "transcript": engine_transcript, "conc": engine_conc}
 
 API_RULE_VERIFY = ("triples are built constructively with the big-integer model (W-honest, W-torsion 8x8, W-smallkey x W-Sbound, "
                    "W-noncanonR, single-bit perturbations, S+kL, W-garbage, signature lengths 0..70) and judged by the model predicate; "
@@ -457,6 +596,9 @@ SPECS = {
     "C08": {"engine": "transcript", "configs": {"quick": ["K0", "K1", "K2", "K3", "K4", "K6"], "thorough": ["K0", "K1", "K2", "K3", "K4", "K5", "K6"]}, "floor": 10000,
             "rule": "API calls (key generation, 3 signing variants, verdicts in both modes on torsion/small-order/boundary/garbage triples, batches with seeded entropy, X25519 both paths, conversions) generated once by the model and executed by one binary per build configuration; evaluations = transcript lines over all configurations; distinct = distinct calls; every call is non-trivial (its full output is compared)",
             "assumptions": ["configuration K0 serves as reference; agreement with the model is established by C01-C12", "GOARCH=386 binaries executed on this amd64 kernel stand for native 32-bit targets", "only executions the workload produced are judged"]},
+    "C15": {"engine": "conc", "configs": {"quick": ["K0", "K2"], "thorough": ["K0", "K1", "K2", "K4", "K5", "K6"]}, "floor": 15000,
+            "rule": "evaluations = API calls executed in shuffled sequential orders and concurrently (G goroutines x GOMAXPROCS shapes, -race build) and compared with the solitary result of the same call from a fresh process; non-trivial/distinct = distinct ordered (predecessor, call) pairs in sequential mode plus distinct pairs of different calls whose executions overlapped (ticket counter) in concurrent mode",
+            "assumptions": ["Go race detector (happens-before, reports only races that occur in observed executions; amd64 only, GOARCH=386 runs without it)", "solitary results come from the same build configuration, one fresh process per call", "interleavings are those the Go scheduler produced under the listed goroutine/GOMAXPROCS shapes with PRNG-driven Gosched"]},
     "C09": {"engine": "apimon", "configs": {"quick": [("K0", 1)], "thorough": [("K0", 1), ("K2", 0.1), ("K6", 0.1)]}, "floor": 1500, "rule": API_RULE_VERIFY},
     "C10": {"engine": "apimon", "configs": {"quick": [("K0", 1)], "thorough": [("K0", 1), ("K2", 0.25), ("K6", 0.1)]}, "floor": 15000,
             "rule": "32-byte strings (special y values, all y >= p, mixed-order points in every encoding, garbage, random) decoded by the library and the model; every string is non-trivial (about half decode); distinct = FNV-64 of the string"},
@@ -523,4 +665,4 @@ def replay_apimon(path, v, cfg, spec):
     return p.returncode
 
 
-REPLAYERS = {"apimon": replay_apimon, "transcript": replay_transcript}
+REPLAYERS = {"apimon": replay_apimon, "transcript": replay_transcript, "conc": replay_conc}
